@@ -165,8 +165,10 @@ func (g *gen) op() string {
 		return "reopen"
 	case c < 91:
 		return "dbcommit"
-	case c < 94:
+	case c < 93:
 		return "cachelimit " + strconv.Itoa(r.Pick(0, 0, 1, 2, 3, 65535))
+	case c < 96:
+		return "shape"
 	default:
 		if r.Bool() {
 			return "iter -"
